@@ -69,4 +69,18 @@ CHECKS = {
         "quick": {"shards": 16, "budget_s": 30, "min_evals": 1000, "min_counters": {"set_len_ops": 1000, "sequential_reads_through_reader_with_older_cache": 5000, "threaded_reads_checked": 100000}},
         "thorough": {"shards": 16, "budget_s": 600, "min_evals": 100000, "extras": ["tsan_seglog"]},
     },
+    "C01": {
+        "engine": "vp-store", "level": "exploration",
+        "rule": "seeded histories of 20-120 operations on a real Database under a random configuration (segment 128 KiB/256 KiB/1 MiB, 1-4 buckets, 1-4 writer threads, compression on/off, sync interval 1-100 ms, max batch 1/50/1000, min sync bytes 1/4096/1 MiB): single- and multi-event appends that are valid, version-conflicting, partition-key conflicting (same bucket), oversized, or carry a timestamp >= 2^63 at the first/middle/last event; reopen (3%). Oracle: reference model. After every acknowledgement, with no delay: event lookup, transaction read, partition scan and stream scans compared field by field; the ack must follow an fsync event (hook in seglog::Writer::sync) covering the transaction's end offset in its segment; whole-model audit after every reopen, at the end, and after a final reopen. non-trivial = distinct histories containing an ack that follows a failed part-way multi-event append on the same bucket, or an ack whose transaction is the first in a new segment",
+        "assumptions": A_COMMON + ["fsync is observed through a hook placed right after File::sync_data in seglog (the thorough tier cross-checks the hook against the kernel with strace)", "a stream id is never reused with a partition key that maps to a different bucket"],
+        "quick": {"shards": 16, "budget_s": 45, "min_evals": 200, "min_counters": {"acks_joined_with_fsync": 5000, "acks_after_failed_partial_write": 100, "acks_first_in_new_segment": 100}},
+        "thorough": {"shards": 48, "parallel": 16, "budget_s": 300, "min_evals": 5000, "extras": ["strace_fsync"]},
+    },
+    "C02": {
+        "engine": "vp-store", "level": "exploration",
+        "rule": "seeded histories of 40-120 well-formed appends on a real Database (random configuration as for C01): Any/Exists/Empty/Exact expectations right and wrong by one or two, repeated streams inside one transaction with expectations relative to earlier events of the same transaction, 2 streams x 2 keys per partition over 1-3 partitions per bucket, expected partition sequence Any/Exists/Empty/Exact right and wrong, same-bucket partition-key conflicts, reopen between steps. Oracle: reference model: accept/reject must agree, assigned sequences/versions must agree, latest-version/sequence queries must agree after every accept, and a rejected append must leave every observable (latest queries, partition tail, stream tails) unchanged. non-trivial = distinct histories exercising >= 3 expectation kinds both satisfied and violated and crossing >= 1 rollover or reopen",
+        "assumptions": A_COMMON + ["only accept/reject and assigned numbers are compared, not error text", "transactions fit a segment and carry valid timestamps (everything else belongs to C01/C19)"],
+        "quick": {"shards": 16, "budget_s": 40, "min_evals": 200, "min_counters": {"acks": 5000, "appends_rejected_as_expected": 3000}},
+        "thorough": {"shards": 48, "parallel": 16, "budget_s": 300, "min_evals": 5000},
+    },
 }
